@@ -26,3 +26,50 @@ Print Assumptions C14_spawning_cost_dominates_rates.
 Theorem C14_pre_repair_spawning_cost_zero : stmt_spawning_cost_prefix_zero.
 Proof. exact spawning_cost_prefix_zero. Qed.
 Print Assumptions C14_pre_repair_spawning_cost_zero.
+
+(** "Every flow unit is decoded into exactly one tour", and the circulation's objective is the documented one: for a
+    feasible flow of the per-type network and tours passing [is_decomposition] (both evaluated on the recorded flow and
+    the decoded tours of every run), (1) every departure segment is visited between min(required, limit) and limit times,
+    every allotted slot exactly its allotted number of times, and at most capacity-many tours start at each depot;
+    (2) every consecutive pair of every tour is an arc of the network, hence connectable under the timing rules (forced
+    by flow conservation); (3) the cost of the flow is the spawning cost per tour plus the tours' operating costs exactly
+    as Tour computes them — so a minimum-cost flow is a minimum-vehicle, then minimum-operating-cost set of tours. The
+    statements over arbitrary network RECORDS and arbitrary ids are refuted (a depot listed as service trip; an unknown
+    id read as a depot). *)
+From RS Require Import Tour NetSpec FlowFacts2.
+Theorem C14_decomposition_covers :
+  forall nw ty slots f tours,
+    let net := build_flow_network nw ty slots in
+    (forall x, In x (service_nodes nw ty ++ map fst slots) -> is_depot (nd nw x) = false) ->
+    codes_distinct nw ty slots -> tours_shape nw ty slots tours ->
+    feasible net f = true -> is_decomposition nw net f tours = true ->
+    (forall s, In s (service_nodes nw ty) ->
+       let mf := match maximal_formation_count_for nw s with Some l => l | None => 100 end in
+       Z.min (number_of_vehicles_required_to_serve nw ty s) mf <= visits tours s <= mf) /\
+    (forall m c, In (m, c) slots -> visits tours m = c) /\
+    (forall d, In d (depot_ids nw) -> tours_from nw tours d <= capacity_of nw d ty).
+Proof. exact decomposition_covers_under_nondepot. Qed.
+Print Assumptions C14_decomposition_covers.
+Theorem C14_decoded_pairs_connectable :
+  forall nw ty slots f tours,
+    let net := build_flow_network nw ty slots in
+    net_wf_b nw = true -> In ty (type_ids nw) ->
+    flow_wf nw ty slots -> codes_distinct nw ty slots ->
+    tours_shape nw ty slots tours -> tours_ends nw tours ->
+    feasible net f = true -> is_decomposition nw net f tours = true ->
+    forall t x y, In t tours -> In (x, y) (windows t) -> can_reach nw x y = true.
+Proof. exact decomposition_pairs_reachable. Qed.
+Print Assumptions C14_decoded_pairs_connectable.
+Theorem C14_flow_cost_is_vehicles_then_operating_cost :
+  forall nw ty slots f tours,
+    let net := build_flow_network nw ty slots in
+    flow_wf nw ty slots -> tours_ends nw tours ->
+    codes_distinct nw ty slots -> tours_shape nw ty slots tours ->
+    feasible net f = true -> is_decomposition nw net f tours = true ->
+    flow_cost net f =
+      spawning_cost nw ty slots * Z.of_nat (length tours) + z_sum (map (fun t => compute_costs nw t) tours).
+Proof. exact flow_cost_is_tour_cost_under_wf. Qed.
+Print Assumptions C14_flow_cost_is_vehicles_then_operating_cost.
+Theorem C14_unrestricted_statements_refuted : ~ stmt_decomposition_covers /\ ~ stmt_flow_cost_is_tour_cost.
+Proof. exact (conj decomposition_covers_refuted flow_cost_is_tour_cost_refuted). Qed.
+Print Assumptions C14_unrestricted_statements_refuted.
